@@ -158,6 +158,9 @@ func c09hist(c *Ctx) {
 		if r.P(25) {
 			p.pc = c09libPC
 		}
+		if r.P(8) {
+			p.pc = 0 // no frame at all (what the bridge passes when it has none): the caller part is then what it is for no frame
+		}
 		if r.P(3) {
 			p.ts = time.Time{} // the zero instant is an instant like any other: the call carries it
 		}
